@@ -436,7 +436,7 @@ theorem model_holds (i : Input) : Holds i (run i) = true := by
   have hrev := reversed_same i h
   have hWF := h
   unfold WF wfDoc at hWF
-  refine ⟨trivial, by simp, ?_, ?_, ?_, ?_, ?_, ?_, ?_⟩
+  refine ⟨trivial, by simp, ?_, ?_, ?_, ?_, ?_, ?_, ?_, ?_⟩
   · -- selected = expected
     rw [forall₂_map]
     apply List.all_eq_true.2
@@ -530,11 +530,22 @@ theorem model_holds (i : Input) : Holds i (run i) = true := by
       intro r hr
       obtain ⟨t, _, rfl⟩ := List.mem_map.1 hr
       unfold pureT
-      cases i.kind <;> exact (pureQ_selected _ _ _ _ _).2.2.2.2.2.2
+      cases i.kind <;> exact (pureQ_selected _ _ _ _ _).2.2.2.2.2.2.1
     · cases i.kind
       · rfl
       · simp only [Option.map_some, Option.getD_some]
-        exact (pureQ_selected _ _ _ _ _).2.2.2.2.2.2
+        exact (pureQ_selected _ _ _ _ _).2.2.2.2.2.2.1
+  · -- copies are independent of each other
+    constructor
+    · apply List.all_eq_true.2
+      intro r hr
+      obtain ⟨t, _, rfl⟩ := List.mem_map.1 hr
+      unfold pureT
+      cases i.kind <;> exact (pureQ_selected _ _ _ _ _).2.2.2.2.2.2.2
+    · cases i.kind
+      · rfl
+      · simp only [Option.map_some, Option.getD_some]
+        exact (pureQ_selected _ _ _ _ _).2.2.2.2.2.2.2
 
 /-! ### selection is a function of the document's current content -/
 
@@ -596,7 +607,7 @@ example : Holds exInput (run exInput) = true := by decide
 example : Holds { exInput with queries := ["r.io/ap@d".toList] }
     { validated := true, verifierAccepts := true,
       queries := [{ selected := some "a".toList, reversedSelected := some "a".toList, refRejected := false,
-                    viaVerify := "stmt:a".toList, viaSkip := "stmt:a".toList, copyEqual := true, intact := true }],
+                    viaVerify := "stmt:a".toList, viaSkip := "stmt:a".toList, copyEqual := true, intact := true, independent := true }],
       globalSel := none } = false := by decide
 
 /-- a document with two wildcard statements breaks the uniqueness rules: the model refuses it,
@@ -613,7 +624,7 @@ example : Holds exTwoWild refused = true := by decide
 example : Holds exTwoWild
     { validated := true, verifierAccepts := true,
       queries := [{ selected := some "w2".toList, reversedSelected := some "w1".toList, refRejected := false,
-                    viaVerify := "stmt:w2".toList, viaSkip := "stmt:w2".toList, copyEqual := true, intact := true }],
+                    viaVerify := "stmt:w2".toList, viaSkip := "stmt:w2".toList, copyEqual := true, intact := true, independent := true }],
       globalSel := none } = false := by decide
 
 /-- the same scope in two statements, the same scope twice in one statement, a duplicate name,
@@ -641,6 +652,19 @@ example : ((runWith { currentFacts with oci := [("Name", "copied:t.Name"), ("Sig
 
 example : ((runWith { currentFacts with makesMap := false } exInput).queries.map (·.intact)) =
     [false, false, false, true, true] := by decide
+
+/-- an EMPTY non-nil Override map is a map too: a `clone` that shares it lets a key inserted through
+the handed-out copy show up in the next selection; and with a shared slice a write through the
+second copy is seen through the first one -/
+example : ((runWith { currentFacts with makesMap := false }
+    { exInput with stmts := [{ exStmt "w" ["*"] with override := some [] }], queries := ["r.io/a@d".toList] }).queries.map (·.intact)) =
+    [false] := by decide
+
+example : ((runWith { currentFacts with oci := [("Name", "copied:t.Name"), ("SignatureVerification", "deep-clone"),
+      ("TrustedIdentities", "fresh-slice"), ("TrustStores", "copied:t.TrustStores"), ("RegistryScopes", "fresh-slice")] }
+    exInput).queries.map (·.independent)) = [false, false, false, true, true] := by decide
+
+example : (run exInput).queries.map (·.independent) = [true, true, true, true, true] := by decide
 
 /-- blob: exact name, near misses, blank name; VerifyBlob without a name applies the global statement -/
 def exBlob : Input :=
